@@ -10,6 +10,7 @@ import (
 
 	"github.com/tychoish/fun"
 	"github.com/tychoish/fun/erc"
+	"github.com/tychoish/fun/ers"
 	"github.com/tychoish/fun/itertool"
 	"verif/simrt"
 )
@@ -26,10 +27,11 @@ const (
 	fkSkip
 	fkEOF
 	fkCtxErr
+	fkAbort
 	fkNumKinds
 )
 
-var fkNames = []string{"none", "plain", "wrapped", "panic(error)", "panic(string)", "panic(struct)", "skip", "EOF", "ctxerr"}
+var fkNames = []string{"none", "plain", "wrapped", "panic(error)", "panic(string)", "panic(struct)", "skip", "EOF", "ctxerr", "ErrCurrentOpAbort"}
 
 type c03Fault struct {
 	pos  int
@@ -131,7 +133,7 @@ func c03Run(w *W, enumerate bool) {
 		switch kind {
 		case fkNone, fkSkip:
 			return true
-		case fkPlain, fkWrapped:
+		case fkPlain, fkWrapped, fkAbort:
 			return contErr
 		case fkPanicErr, fkPanicStr, fkPanicStruct:
 			return contPanic
@@ -154,7 +156,9 @@ func c03Run(w *W, enumerate bool) {
 		if kind != fkNone {
 			w.Fault("callback-" + fkNames[kind])
 		}
-		if !continuable(kind) && failedTask == "" {
+		// (the generator's own io.EOF ends the sequence for that worker; it is
+		// not the failure the abort clauses count from)
+		if !continuable(kind) && failedTask == "" && !(cons == 4 && kind == fkEOF) {
 			failedTask = me
 		}
 		switch kind {
@@ -174,6 +178,8 @@ func c03Run(w *W, enumerate bool) {
 			return io.EOF
 		case fkCtxErr:
 			return context.Canceled
+		case fkAbort:
+			return ers.ErrCurrentOpAbort
 		}
 		return nil
 	}
@@ -291,6 +297,11 @@ func c03Run(w *W, enumerate bool) {
 	if invoked[fkPanicErr] && mustReport && !errors.Is(result, panicErr) {
 		w.Violate("error-lost", sig("error-lost", "panic-error"), "%s: panic(err) was recovered but errors.Is(result, err) is false; result=%v", name, result)
 	}
+	if invoked[fkAbort] && mustReport && !errors.Is(result, ers.ErrCurrentOpAbort) {
+		// ErrCurrentOpAbort is not among the errors the statement exempts from
+		// reporting (io.EOF, ErrIteratorSkip, context errors, ExcludedErrors)
+		w.Violate("error-lost", sig("error-lost", "ErrCurrentOpAbort"), "%s: the processing function returned ErrCurrentOpAbort but errors.Is(result, it) is false; result=%v", name, result)
+	}
 	if ctxReportable && !errors.Is(result, context.Canceled) {
 		w.Violate("error-lost", sig("error-lost", "ctxerr-included"), "%s: IncludeContextExpirationErrors is set, the function returned context.Canceled, result=%v", name, result)
 	}
@@ -308,7 +319,7 @@ func c03Run(w *W, enumerate bool) {
 		w.Violate("ctxerr-reported", sig("ctxerr-reported", ""), "%s: a context error was reported without IncludeContextExpirationErrors: %v", name, result)
 	}
 	// nil exactly when nothing reportable happened
-	reportable := (invoked[fkPlain] || invoked[fkWrapped]) && excl != 1 || invoked[fkPanicErr] || invoked[fkPanicStr] || invoked[fkPanicStruct] || invoked[fkCtxErr] && inclCtx
+	reportable := (invoked[fkPlain] || invoked[fkWrapped]) && excl != 1 || invoked[fkPanicErr] || invoked[fkPanicStr] || invoked[fkPanicStruct] || invoked[fkCtxErr] && inclCtx || invoked[fkAbort]
 	if !reportable && result != nil && !(realCancel && inclCtx) {
 		w.Violate("spurious-error", sig("spurious-error", ""), "%s: no reportable failure occurred but the result is %v", name, result)
 	}
@@ -321,6 +332,19 @@ func c03Run(w *W, enumerate bool) {
 			if perItem[it] != 1 {
 				w.Violate("not-exactly-once", sig("not-exactly-once", "continue"), "%s: nothing aborted the run but item %d was processed %d times (calls=%d of %d)", name, it, perItem[it], len(calls), n)
 				break
+			}
+		}
+		if cons >= 3 {
+			// the output of Map / GenerateParallel holds exactly the items whose
+			// invocation succeeded, each once
+			var want []int
+			for _, it := range items {
+				if faultFor(it) == fkNone {
+					want = append(want, it)
+				}
+			}
+			if !sameMultiset(outVals, want) {
+				w.Violate("output-mismatch", sig("output-mismatch", "continue"), "%s: nothing aborted the run; the output %v is not the multiset of successfully processed items %v", name, outVals, want)
 			}
 		}
 		return
